@@ -163,71 +163,101 @@ def generate(tier, seed, ctx):
             xs.append(x)
             x += 1.0 if uniform else rng.choice([0.25, 0.5, 1.0, 2.0, 3.0])
         return xs
+    # unit factors (x_dim, f_dim): -1 = no conversion; powers of two and 1e3 give exact products on the small dyadic
+    # tables used here, 1e-3 gives rounded ones (the probes keep their 2^-30 margin in the CONVERTED units)
+    FACT = [(-1.0, -1.0), (1e-3, 2.0), (1e3, 0.5), (0.5, 1e3), (2.0, 1e-3), (2.0 ** -10, -1.0), (1.0, 1.0), (2.0 ** 10, 2.0 ** -10)]
+    fsel = lambda k: FACT[(k + seed) % len(FACT)]
+    conv = lambda xs, d: [x * d for x in xs] if d > 0 else list(xs)
+    dd = lambda f: "%s %s" % (hx(f[0]), hx(f[1]))
     tables = [inc(n) for n in (0, 1, 2, 3, 3, 4, 5)] + [inc(rng.randint(4, 12)) for _ in range(12 if thorough else 3)]
-    for xs in tables:
+    for ti, xs in enumerate(tables):
         n = len(xs)
         ys = [float(i % 3) for i in range(n)]
-        add("c10.interp.ctor %s %s" % (lst(xs), lst(ys)))
-        add("c10.interp.ctor %s %s" % (lst(xs), lst(ys + [1.0])))
+        f = dd(fsel(ti))
+        add("c10.interp.ctor %s %s %s" % (lst(xs), lst(ys), f))
+        add("c10.interp.ctor %s %s %s" % (lst(xs), lst(ys + [1.0]), f))
         if n:
-            add("c10.interp.ctor %s %s" % (lst(xs), lst(ys[:-1])))
-            add("c10.interp.ctor %s %s" % (lst(xs[:-1]), lst(ys)))
-        add("c10.interp.table %d %s" % (n, " ".join(lst([x, y]) for x, y in zip(xs, ys))))
+            add("c10.interp.ctor %s %s %s" % (lst(xs), lst(ys[:-1]), f))
+            add("c10.interp.ctor %s %s %s" % (lst(xs[:-1]), lst(ys), f))
+        add("c10.interp.table %d %s %s" % (n, " ".join(lst([x, y]) for x, y in zip(xs, ys)), f))
         if n >= 2:
             for k in sorted({0, min(n // 2, n - 2), n - 2}):
                 bad = list(xs); bad[k + 1] = bad[k]                      # duplicate abscissa
-                add("c10.interp.ctor %s %s" % (lst(bad), lst(ys)))
+                add("c10.interp.ctor %s %s %s" % (lst(bad), lst(ys), f))
                 bad = list(xs); bad[k], bad[k + 1] = bad[k + 1], bad[k]   # decreasing pair
-                add("c10.interp.ctor %s %s" % (lst(bad), lst(ys)))
-                add("c10.interp.table %d %s" % (n, " ".join(lst([x, y]) for x, y in zip(bad, ys))))
+                add("c10.interp.ctor %s %s %s" % (lst(bad), lst(ys), f))
+                add("c10.interp.table %d %s %s" % (n, " ".join(lst([x, y]) for x, y in zip(bad, ys)), f))
                 rows = [[x, y] for x, y in zip(xs, ys)]
                 rows[k] = rows[k] + [0.5]                                  # a row of three entries
-                add("c10.interp.table %d %s" % (n, " ".join(lst(r) for r in rows)))
+                add("c10.interp.table %d %s %s" % (n, " ".join(lst(r) for r in rows), f))
                 rows[k] = rows[k][:1]                                      # a row of one entry
-                add("c10.interp.table %d %s" % (n, " ".join(lst(r) for r in rows)))
+                add("c10.interp.table %d %s %s" % (n, " ".join(lst(r) for r in rows), f))
                 rows[k] = []
-                add("c10.interp.table %d %s" % (n, " ".join(lst(r) for r in rows)))
-    grids = [[0.0, 100.0, 200.0], [-100.0, 0.0, 200.0, 300.0], [0.0, 1.0, 2.0], [1.0, 1.5, 3.5, 4.0, 8.0], inc(8)]
+                add("c10.interp.table %d %s %s" % (n, " ".join(lst(r) for r in rows), f))
+    grids = [[0.0, 100.0, 200.0], [-100.0, 0.0, 200.0, 300.0], [1.0, 1.5, 3.5, 4.0, 8.0]]
     grids += [inc(rng.randint(3, 20)) for _ in range(10 if thorough else 1)]
     ctx["grids"] = len(grids)
-    for xs in grids:
-        pr = ends_probe(xs)
-        for x in pr:
-            add("c10.interp.locate %s %s" % (lst(xs), hx(x)))
-            add("c10.interp.eval %s %s" % (lst(xs), hx(x)))
-            add("c10.interp.deriv %s %s %d" % (lst(xs), hx(x), rng.randint(0, 4)))
-        for k in range(5):
-            add("c10.interp.deriv %s %s %d" % (lst(xs), hx(pr[4]), k))
-        sel = pr if thorough else rng.sample(pr, 6) + pr[:2]
-        for x1 in sel:
-            for x2 in (rng.sample(pr, 4) if not thorough else pr[::2]):
-                add("c10.interp.integ %s %s %s" % (lst(xs), hx(x1), hx(x2)))
-                add("c10.interp.lmin %s %s %s" % (lst(xs), hx(x1), hx(x2)))
-                add("c10.interp.lmax %s %s %s" % (lst(xs), hx(x1), hx(x2)))
-        # histories on one object: calls in the first / last interval (search state correlated) followed by
-        # abscissae on both sides of the tolerance at either end
-        d0, d1 = xs[0], xs[-1]
-        tl, tr = 1e-2 * (xs[1] - xs[0]), 1e-2 * (xs[-1] - xs[-2])
-        mid_first, mid_last = (xs[0] + xs[1]) / 2, (xs[-1] + xs[-2]) / 2
-        outs = [d1 + tr * (1 + P30), d1 + tr * 2, d1 + (d1 - d0), d0 - tl * (1 + P30), d0 - tl * 2, d0 - (d1 - d0)]
-        ins = [d1 + tr * (1 - P30), d1, d0 - tl * (1 - P30), d0, mid_first, mid_last]
-        for pre in ([mid_last], [mid_first], [d1], [d0], [mid_last, mid_last], [mid_first, mid_last], [mid_last, d1 + tr * 0.5], [mid_first, d0 - tl * 0.5], [xs[1], xs[-2], mid_last]):
-            for v in outs + ins:
-                add("c10.interp.hist %s %s" % (lst(xs), lst(pre + [v])))
-        for v in outs[:3] + ins[:2]:
-            add("c10.interp.integ %s %s %s" % (lst(xs), hx(mid_last), hx(v)))
-            add("c10.interp.integ %s %s %s" % (lst(xs), hx(v), hx(mid_last)))
-            add("c10.interp.lmin %s %s %s" % (lst(xs), hx(mid_last), hx(v)))
-            add("c10.interp.lmax %s %s %s" % (lst(xs), hx(mid_last), hx(v)))
-        for v in outs[3:] + ins[2:4]:
-            add("c10.interp.integ %s %s %s" % (lst(xs), hx(v), hx(mid_first)))
-            add("c10.interp.lmin %s %s %s" % (lst(xs), hx(v), hx(mid_first)))
-            add("c10.interp.lmax %s %s %s" % (lst(xs), hx(v), hx(mid_first)))
-        add("c10.interp.lmin %s %s %s" % (lst(xs), hx(pr[4]), hx(pr[4])))
-        add("c10.interp.lmax %s %s %s" % (lst(xs), hx(pr[5]), hx(pr[4])))
+    for gi, raw in enumerate(grids):
+        fac = (-1.0, -1.0) if gi == 0 else fsel(gi)
+        for fac in ([fac] if not thorough else [fac, fsel(gi + 3)]):
+            xs = conv(raw, fac[0])           # the table in converted units: every abscissa below is measured in these
+            G = "%s %s" % (lst(raw), dd(fac))
+            pr = ends_probe(xs)
+            for x in pr:
+                add("c10.interp.locate %s %s" % (G, hx(x)))
+                add("c10.interp.eval %s %s" % (G, hx(x)))
+                add("c10.interp.deriv %s %s %d" % (G, hx(x), rng.randint(0, 4)))
+            for k in range(5):
+                add("c10.interp.deriv %s %s %d" % (G, hx(pr[4]), k))
+            sel = pr if thorough else rng.sample(pr, 6) + pr[:2]
+            for x1 in sel:
+                for x2 in (rng.sample(pr, 4) if not thorough else pr[::2]):
+                    add("c10.interp.integ %s %s %s" % (G, hx(x1), hx(x2)))
+                    add("c10.interp.lmin %s %s %s" % (G, hx(x1), hx(x2)))
+                    add("c10.interp.lmax %s %s %s" % (G, hx(x1), hx(x2)))
+            # histories on one object: calls in the first / last interval (search state correlated) followed by
+            # abscissae on both sides of the tolerance at either end
+            d0, d1 = xs[0], xs[-1]
+            tl, tr = 1e-2 * (xs[1] - xs[0]), 1e-2 * (xs[-1] - xs[-2])
+            mid_first, mid_last = (xs[0] + xs[1]) / 2, (xs[-1] + xs[-2]) / 2
+            outs = [d1 + tr * (1 + P30), d1 + tr * 2, d1 + (d1 - d0), d0 - tl * (1 + P30), d0 - tl * 2, d0 - (d1 - d0)]
+            ins = [d1 + tr * (1 - P30), d1, d0 - tl * (1 - P30), d0, mid_first, mid_last]
+            pres = [[mid_last], [mid_first], [d1], [d0], [mid_last, mid_last], [mid_first, mid_last], [mid_last, d1 + tr * 0.5], [mid_first, d0 - tl * 0.5], [xs[1], xs[-2], mid_last]]
+            for pre in (pres if thorough else pres[:2] + rng.sample(pres[2:], 3)):
+                for v in outs + ins:
+                    add("c10.interp.hist %s %s" % (G, lst(pre + [v])))
+            for v in outs[:3] + ins[:2]:
+                add("c10.interp.integ %s %s %s" % (G, hx(mid_last), hx(v)))
+                add("c10.interp.integ %s %s %s" % (G, hx(v), hx(mid_last)))
+                add("c10.interp.lmin %s %s %s" % (G, hx(mid_last), hx(v)))
+                add("c10.interp.lmax %s %s %s" % (G, hx(mid_last), hx(v)))
+            for v in outs[3:] + ins[2:4]:
+                add("c10.interp.integ %s %s %s" % (G, hx(v), hx(mid_first)))
+                add("c10.interp.lmin %s %s %s" % (G, hx(v), hx(mid_first)))
+                add("c10.interp.lmax %s %s %s" % (G, hx(v), hx(mid_first)))
+            add("c10.interp.lmin %s %s %s" % (G, hx(pr[4]), hx(pr[4])))
+            add("c10.interp.lmax %s %s %s" % (G, hx(pr[5]), hx(pr[4])))
+    # every unit factor, every query, both ends: 0.5% / just inside, just outside / 2% / 50% / three intervals outside
+    for ri, raw in enumerate(([0.0, 1.0, 2.0, 4.0], [-3.0, -1.0, 0.0, 0.5, 1.0])):
+        for fi, fac in enumerate(FACT):
+            if not thorough and (fi + ri + seed) % 2:
+                continue                     # quick: each factor on one of the two tables
+            xs = conv(raw, fac[0])
+            G = "%s %s" % (lst(raw), dd(fac))
+            mid = (xs[1] + xs[2]) / 2
+            for e, t, sg in ((xs[0], 1e-2 * (xs[1] - xs[0]), -1.0), (xs[-1], 1e-2 * (xs[-1] - xs[-2]), 1.0)):
+                for m in (0.5, 1 - P30, 1 + P30, 2.0, 50.0, 300.0):
+                    v = e + sg * t * m
+                    lo, hi = (v, mid) if v < mid else (mid, v)
+                    add("c10.interp.locate %s %s" % (G, hx(v)))
+                    add("c10.interp.eval %s %s" % (G, hx(v)))
+                    add("c10.interp.deriv %s %s %d" % (G, hx(v), 1 + int(m * 2) % 3))
+                    add("c10.interp.integ %s %s %s" % (G, hx(mid), hx(v)))
+                    add("c10.interp.%s %s %s %s" % ("lmin" if sg < 0 else "lmax", G, hx(lo), hx(hi)))
+                    add("c10.interp.hist %s %s" % (G, lst([mid, v])))
     # 2-D
     g2 = [([0.0, 1.0, 2.0], [0.0, 100.0, 200.0, 300.0]), (inc(4), inc(3)), (inc(3), inc(5))]
-    for xs, ys in g2:
+    for g2i, (xs, ys) in enumerate(g2):
         nx, ny = len(xs), len(ys)
         for lens in ([ny] * nx, [nx] * ny, [ny] * (nx - 1), [ny] * (nx + 1), [ny] * (nx - 1) + [ny - 1], [ny + 1] + [ny] * (nx - 1), [], [ny - 1] * nx, [0] * nx):
             add("c10.interp2.ctor %s %s %s" % (lst(xs), lst(ys), ilst(lens)))
@@ -247,10 +277,11 @@ def generate(tier, seed, ctx):
         add(tb([r for r in rows if r[0] != xs[0]]))                 # one x removed: complete but maybe too short
         add(tb([r for r in rows if r[0] in xs[:2]]))                # only two x values
         add(tb([]))
-        px, py = ends_probe(xs), ends_probe(ys)
+        fx, fy = fsel(g2i)[0], fsel(g2i + 2)[0]
+        px, py = ends_probe(conv(xs, fx)), ends_probe(conv(ys, fy))
         for x in (px if thorough else px[:3] + rng.sample(px, 8)):
             for y in (py if thorough else py[:2] + rng.sample(py, 5)):
-                add("c10.interp2.eval %s %s %s %s" % (lst(xs), lst(ys), hx(x), hx(y)))
+                add("c10.interp2.eval %s %s %s %s %s %s" % (lst(xs), lst(ys), hx(fx), hx(fy), hx(x), hx(y)))
     # ---- 4. Find_Root -----------------------------------------------------------------------------------
     vals = [-1.0, 1.0, 0.0, -0.0, P30, -P30, 3.0, -2.5, 2.0 ** -400, -(2.0 ** -400), 2.0 ** -600, -(2.0 ** -600), float("nan")]
     for a_ in vals:
@@ -271,6 +302,19 @@ def generate(tier, seed, ctx):
     # ---- 6. Special functions -------------------------------------------------------------------------------
     for n in [0, 1, 2, 20, 169, 170, 171, 172, 1000, IMAX, UMAX] + [rng.randint(0, 340) for _ in range(10)]:
         add("c10.factorial %d" % n)
+    # histories in ONE process (static memo table of Factorial): valid calls, then a call beyond 170
+    for v in (0, 1, 100, 159, 160, 165, 170):
+        for w in (171, 172, 173, 174, 175, 176, 200, UMAX):
+            add("c10.factorial.hist 2 F%d F%d" % (v, w))
+        add("c10.factorial.hist 3 F%d F170 F%d" % (v, max(v - 1, 0)))
+    for b in ("B170:85", "B165:3", "B160:160", "B100:50", "B200:100"):
+        for w in (171, 173, 175, 176):
+            add("c10.factorial.hist 2 %s F%d" % (b, w))
+        add("c10.factorial.hist 3 %s F170 %s" % (b, b))
+    for h in (["F160", "F170", "F171"], ["F170", "B-1:2"], ["F170", "B5:-1"], ["F165", "B171:3", "F171"], ["F3", "B170:2", "F172", "F1"]):
+        add("c10.factorial.hist %d %s" % (len(h), " ".join(h)))
+    for h in (["Vegas", "Vegas"], ["Vegas", "Miser", "Monte-Carlo", "Vegas"], ["Vegas", "bogus"], ["Miser", "vegas"], ["Monte-Carlo", ""], ["Vegas", "Vegas", "Gauss-Legendre"]):
+        add("c10.integmc.hist %d %s" % (len(h), " ".join("m:" + m for m in h)))
     for n in (-IMAX - 1, -1, 0, 1, 5, 170, 171, 200):
         for k in sorted({-IMAX - 1, -1, 0, 1, 3, n, n + 1 if n < IMAX else n}):
             add("c10.binom %d %d" % (n, k))
